@@ -73,7 +73,46 @@ def cases(tier):
         out.append({"kind": "powexp", "name": "pow-tensor-exponent/%s" % ev, "exp": ev})
     out.append({"kind": "nodiff", "name": "nodiff"})
     out.append({"kind": "constonly", "name": "const-only"})
+    fams = [c for c in out if c["kind"] in ("ufunc", "spell")]
+    for i in range(0, len(fams), 12):
+        out.append({"kind": "lane", "name": "concrete-lane/%d" % i, "members": fams[i:i + 12]})
     return out
+
+
+def run_lane(spec, tier, mg):
+    """dtype x constant-flag x layout grid on ordinary arrays, unpatched library in a child process (harness/c11_lane.py)"""
+    import json
+    import os
+    import subprocess
+
+    res = common.new_result()
+    families = {m["name"]: _spellings(m) for m in spec["members"]}
+    env = dict(os.environ)
+    env["PYTHONPATH"] = os.path.join(common.REPO, "src")
+    lane = os.path.join(common.VERIF, "harness", "c11_lane.py")
+    p = subprocess.run([common.PY_REAL, lane], input=json.dumps({"families": families}), capture_output=True, text=True, env=env, timeout=1200)
+    out = None
+    for line in (p.stdout or "").splitlines():
+        if line.startswith("C11-LANE-JSON:"):
+            out = json.loads(line[len("C11-LANE-JSON:"):])
+    if out is None:
+        res["status"] = common.INCONCLUSIVE
+        res["notes"].append("concrete lane failed: %s" % (p.stderr or "")[-400:])
+        return res
+    res["paths"] = out["checked"]
+    for name, f in out["findings"].items():
+        src = "import json, subprocess, sys, os\nspec = %r\nenv = dict(os.environ)\np = subprocess.run([sys.executable, %r, '--replay'], input=json.dumps(spec), text=True, env=env)\nsys.exit(p.returncode)\n" % (
+            {"families": {name: families[name]}}, lane)
+        path = common.write_replay(PROP, gradcase._safe("lane_" + name), src)
+        ok, o = common.run_replay(path)
+        if ok:
+            res["status"] = common.VIOLATION
+            res["violations"].append({"signature": "lane:%s:%s" % (name, f[0].split(": ", 1)[-1][:40]), "replay": path, "summary": "; ".join(f[:3])})
+        else:
+            res["status"] = common.INCONCLUSIVE
+            res["notes"].append("lane finding did not reproduce: %s" % f[:1])
+    res["sample"] = {"families": list(families)[:3], "grid": "dtype {float64,float32,float16,int64,bool} x constant flags x layout {C, transposed}"}
+    return res
 
 
 def _spellings(spec):
@@ -375,6 +414,8 @@ def run_case(spec, tier):
         return run_spellings(spec, tier, mg)
     if spec["kind"] == "nodiff":
         return run_nodiff(spec, tier, mg)
+    if spec["kind"] == "lane":
+        return run_lane(spec, tier, mg)
     return run_constonly(spec, tier, mg)
 
 
